@@ -64,6 +64,10 @@ pub fn check_vint32(ctx: &mut Ctx, v: u32, model: bool) {
         if m != hex(&bytes) {
             ctx.report.violation("model", "C07:model-vint32", format!("serialize_vint_u32({v}) = {}, model {m}", hex(&bytes)), case.clone());
         }
+        let m = ctx.model.ask(&format!("C07 vint32_src {v}"));
+        if m != hex(&bytes) {
+            ctx.report.violation("model", "C07:model-vint32", format!("serialize_vint_u32({v}) = {}, translated source (rs2lean) gives {m}", hex(&bytes)), case.clone());
+        }
         let m = ctx.model.ask(&format!("C07 vint32_dec {}", hex(&padded)));
         if m != format!("{} {}", back.0, back.1) {
             ctx.report.violation("model", "C07:model-vint32", format!("read_u32_vint_no_advance({}) = {:?}, model {m}", hex(&padded), back), case);
@@ -440,6 +444,117 @@ fn recycle_inner(ctx: &mut Ctx, state: u64, case: &J) -> Result<(), String> {
 }
 
 // ------------------------------------------------------------------------------------------
+// index sorting: the doc_id_map branch of Recorder::serialize
+// ------------------------------------------------------------------------------------------
+fn check_sorted_index(ctx: &mut Ctx, state: u64) {
+    let case = json!({"kind": "sorted-index", "state": state.to_string()});
+    let r = catch_unwind(AssertUnwindSafe(|| sorted_index_inner(ctx, state, &case)));
+    match r {
+        Ok(Ok(())) => {}
+        Ok(Err(e)) => ctx.report.violation("oracle", "C07:read-error", format!("sorted index case: {e}"), case),
+        Err(p) => ctx.report.violation("oracle", "C07:panic", format!("sorted index case: {}", panic_msg(p)), case),
+    }
+}
+
+fn sorted_index_inner(ctx: &mut Ctx, state: u64, case: &J) -> Result<(), String> {
+    use tantivy::{IndexSettings, IndexSortByField, Order};
+    let mut rng = Rng(state);
+    let opt = *rng.pick(&[Opt::Basic, Opt::Freqs, Opt::Positions]);
+    let n = match rng.below(4) { 0 => 1 + rng.usize_below(5), 1 => 20 + rng.usize_below(60), 2 => 129 + rng.usize_below(10), _ => 260 + rng.usize_below(100) };
+    let desc = rng.chance(1, 2);
+    let mut keys: Vec<u64> = (0..n as u64).collect();
+    rng.shuffle(&mut keys);
+    let vocab = ["a", "b", "cc", "d", "e", "rare"];
+    // doc -> values (each value one raw token)
+    let docs: Vec<Vec<&str>> = (0..n)
+        .map(|i| {
+            let k = rng.usize_below(5);
+            let mut v: Vec<&str> = (0..k).map(|_| { let m = if rng.chance(1, 20) { 6 } else { 3 }; vocab[rng.usize_below(m)] }).collect();
+            if i % 2 == 0 || rng.chance(1, 3) {
+                v.push("all");
+            }
+            v
+        })
+        .collect();
+    let mut sb = Schema::builder();
+    let f = text_field(&mut sb, "t", opt, "raw");
+    let kf = sb.add_u64_field("k", tantivy::schema::FAST | tantivy::schema::INDEXED);
+    let index = Index::builder()
+        .schema(sb.build())
+        .settings(IndexSettings { sort_by_field: Some(IndexSortByField { field: "k".to_string(), order: if desc { Order::Desc } else { Order::Asc } }), ..Default::default() })
+        .create_in_ram()
+        .map_err(|e| e.to_string())?;
+    let mut w: IndexWriter = index.writer_with_num_threads(1, 50_000_000).map_err(|e| e.to_string())?;
+    for (i, d) in docs.iter().enumerate() {
+        let mut doc = TantivyDocument::default();
+        for v in d {
+            doc.add_text(f, v);
+        }
+        doc.add_u64(kf, keys[i]);
+        w.add_document(doc).map_err(|e| e.to_string())?;
+    }
+    w.commit().map_err(|e| e.to_string())?;
+    drop(w);
+    let new_id: Vec<u32> = keys.iter().map(|k| if desc { (n as u64 - 1 - k) as u32 } else { *k as u32 }).collect();
+    // expectation: invert the corpus in the new order
+    let mut order: Vec<usize> = (0..n).collect();
+    order.sort_by_key(|i| new_id[*i]);
+    let mut want: std::collections::BTreeMap<Vec<u8>, Vec<Posting>> = Default::default();
+    for (nd, old) in order.iter().enumerate() {
+        let mut per: std::collections::BTreeMap<&str, Vec<u32>> = Default::default();
+        for (pos, v) in docs[*old].iter().enumerate() {
+            // one raw token per value: position = 2 * value index (token length 1 + gap 1)
+            per.entry(v).or_default().push(2 * pos as u32);
+        }
+        for (t, ps) in per {
+            want.entry(t.as_bytes().to_vec()).or_default().push((nd as u32, ps.len() as u32, ps));
+        }
+    }
+    let project = |l: &Vec<Posting>| -> Vec<Posting> {
+        l.iter().map(|(d, tf, ps)| match opt { Opt::Basic => (*d, 1, vec![]), Opt::Freqs => (*d, *tf, vec![]), Opt::Positions => (*d, *tf, ps.clone()) }).collect()
+    };
+    let text = |l: &[Posting]| -> String {
+        l.iter().map(|(d, tf, ps)| format!("{d}:{tf}:{}", if ps.is_empty() { "-".to_string() } else { ps.iter().map(|p| p.to_string()).collect::<Vec<_>>().join(".") })).collect::<Vec<_>>().join(",")
+    };
+    let mut real_entries = vec![];
+    for (t, l) in &want {
+        let term = std::str::from_utf8(t).unwrap();
+        let (got, df) = read_term(&index, f, term, opt == Opt::Positions)?;
+        let exp = project(l);
+        ctx.report.case(&format!("sorted-index|{}|{n}|{desc}|{term}|{}", opt.name(), l.len()), true);
+        ctx.report.count(&format!("sorted-index:{}", opt.name()));
+        if got != exp || df as usize != l.len() {
+            ctx.report.violation("oracle", "C07:sorted-index-postings", format!("index sorted by a u64 field ({}, {n} docs, {}): term `{term}`: {}", opt.name(), if desc { "desc" } else { "asc" }, first_diff(&exp, &got)), case.clone());
+        }
+        real_entries.push(format!("{}={}", hex(t), text(&got)));
+    }
+    // the Lean model of the doc_id_map branch on the corpus in arrival order
+    let corpus: Vec<String> = docs.iter().map(|d| d.iter().map(|v| format!("{}:0:1", hex(v.as_bytes()))).collect::<Vec<_>>().join("/")).collect();
+    let ids = new_id.iter().map(|x| x.to_string()).collect::<Vec<_>>().join(",");
+    let m = ctx.model.ask(&format!("C07 pipeline_remap {} {ids} {}", opt.name(), corpus.join(";")));
+    if m == "bad-op" {
+        ctx.report.violation("model", "C07:model-unavailable", "the Lean driver answers bad-op for pipeline_remap".into(), json!({"kind": "probe"}));
+    } else {
+        let mt = m.split('|').next().unwrap_or("");
+        let real = if real_entries.is_empty() { "-".to_string() } else { real_entries.join(";") };
+        if mt != real {
+            let sh = |s: &str| if s.len() > 160 { format!("{}…", &s[..160]) } else { s.to_string() };
+            ctx.report.violation("model", "C07:model-pipeline-remap", format!("sorted index ({}, {n} docs): real {} model {}", opt.name(), sh(&real), sh(mt)), case.clone());
+        }
+        // C07_remap_is_invert_of_permuted: the Lean specification `invert` of the corpus in its
+        // new document order is what the sorted index reads back
+        let permuted: Vec<String> = order.iter().map(|old| corpus[*old].clone()).collect();
+        let mi = ctx.model.ask(&format!("C07 invert {} {}", opt.name(), permuted.join(";")));
+        let mit = mi.split('|').next().unwrap_or("");
+        if mit != real {
+            let sh = |s: &str| if s.len() > 160 { format!("{}…", &s[..160]) } else { s.to_string() };
+            ctx.report.violation("model", "C07:model-invert-permuted", format!("sorted index ({}, {n} docs): real {} invert of the permuted corpus {}", opt.name(), sh(&real), sh(mit)), case.clone());
+        }
+    }
+    Ok(())
+}
+
+// ------------------------------------------------------------------------------------------
 // recycled block cursor on raw term bytes: real reset vs expectation (oracle) and vs the model
 // ------------------------------------------------------------------------------------------
 fn check_recycle_codec(ctx: &mut Ctx, opt: Opt, a: &(Vec<u32>, Vec<u32>), b: &(Vec<u32>, Vec<u32>), mv: &str, model: bool) {
@@ -743,11 +858,211 @@ fn check_terminfo_store(ctx: &mut Ctx, tis: &[Ti], model: bool) {
 }
 
 // ------------------------------------------------------------------------------------------
+// a program of seeks on one BlockSegmentPostings (lazy skip reader + load_block + in-block search)
+// ------------------------------------------------------------------------------------------
+/// Real `BlockSegmentPostings::seek` sequence on the real bytes of a list; for non-decreasing
+/// targets every answer must be the first doc >= target (TERMINATED if none); the Lean lazy
+/// cursor model (`BlockPostings.seekAll`, op `lazyseeks`) must answer the same for any sequence.
+fn check_lazy_seeks(ctx: &mut Ctx, opt: Opt, l: &(Vec<u32>, Vec<u32>), targets: &[u32], model: bool) {
+    use crate::props::c07::real_postings_bytes;
+    let case = json!({"kind": "lazy-seeks", "opt": opt.name(), "docs": l.0, "tfs": l.1, "targets": targets});
+    let sorted = targets.windows(2).all(|w| w[0] <= w[1]);
+    ctx.report.case(&format!("lazy-seeks|{}|{}|{}|{sorted}", opt.name(), l.0.len(), targets.len()), !l.0.is_empty() && !targets.is_empty());
+    ctx.report.count("lazy-seeks");
+    let tfs: Vec<u32> = if opt == Opt::Basic { vec![1; l.0.len()] } else { l.1.clone() };
+    let r = catch_unwind(AssertUnwindSafe(|| -> Result<(Vec<u8>, Vec<u32>, Vec<u32>), String> {
+        let bytes = real_postings_bytes(opt, &l.0, &tfs);
+        let mut cur = tantivy::verif::c07_open_block_postings(l.0.len() as u32, bytes.clone(), opt.real(), opt.real()).map_err(|e| e.to_string())?;
+        let mut out = vec![];
+        let mut out_tf = vec![];
+        for &t in targets {
+            let idx = cur.seek(t);
+            out.push(cur.doc(idx));
+            out_tf.push(if cur.doc(idx) == tantivy::TERMINATED { 0 } else { cur.freq(idx) });
+        }
+        Ok((bytes, out, out_tf))
+    }));
+    let (bytes, out, out_tf) = match r {
+        Ok(Ok(x)) => x,
+        Ok(Err(e)) => { ctx.report.violation("oracle", "C07:read-error", format!("lazy-seeks: {e}"), case); return; }
+        Err(p) => { ctx.report.violation("oracle", "C07:panic", format!("lazy-seeks ({} docs): {}", l.0.len(), panic_msg(p)), case); return; }
+    };
+    if sorted {
+        let want: Vec<u32> = targets.iter().map(|&t| l.0.iter().copied().find(|&d| d >= t).unwrap_or(tantivy::TERMINATED)).collect();
+        if out != want {
+            let i = out.iter().zip(&want).position(|(x, y)| x != y).unwrap_or(0);
+            ctx.report.violation("oracle", "C07:block-seek", format!("{}: BlockSegmentPostings::seek program on a {}-doc list: seek #{i} to {} landed on {:?}, first doc >= target is {:?}", opt.name(), l.0.len(), targets[i], out.get(i), want.get(i)), case.clone());
+        }
+    }
+    if opt != Opt::Basic {
+        // the frequency buffer at the returned index: the tf of the doc landed on
+        if sorted {
+            let want: Vec<u32> = targets.iter().map(|&t| l.0.iter().position(|&d| d >= t).map(|i| tfs[i]).unwrap_or(0)).collect();
+            if out_tf != want {
+                let i = out_tf.iter().zip(&want).position(|(x, y)| x != y).unwrap_or(0);
+                ctx.report.violation("oracle", "C07:block-seek-freq", format!("{}: seek #{i} to {} on a {}-doc list: freq(idx) = {:?}, the doc's term frequency is {:?}", opt.name(), targets[i], l.0.len(), out_tf.get(i), want.get(i)), case.clone());
+            }
+        }
+        if model {
+            let m = ctx.model.ask(&format!("C07 lazyseeks_tf {} {} {} {}", opt.name(), l.0.len(), hex(&bytes), crate::model::nat_list(targets)));
+            let real = crate::model::nat_list(&out_tf);
+            if m != real {
+                let sh = |s: &str| if s.len() > 120 { format!("{}…", &s[..120]) } else { s.to_string() };
+                ctx.report.violation("model", "C07:model-lazyseek", format!("{}: term frequencies after seeks on {} docs: real {} model {}", opt.name(), l.0.len(), sh(&real), sh(&m)), case.clone());
+            }
+        }
+    }
+    if model {
+        let m = ctx.model.ask(&format!("C07 lazyseeks {} {} {} {}", opt.name(), l.0.len(), hex(&bytes), crate::model::nat_list(targets)));
+        let real = crate::model::nat_list(&out);
+        if m != real {
+            let sh = |s: &str| if s.len() > 120 { format!("{}…", &s[..120]) } else { s.to_string() };
+            ctx.report.violation("model", "C07:model-lazyseek", format!("{}: seeks on {} docs: real {} model {}", opt.name(), l.0.len(), sh(&real), sh(&m)), case);
+        }
+    }
+}
+
+// ------------------------------------------------------------------------------------------
+// ExpUnrolledLinkedList: the recorders' byte logs, several lists interleaved in one arena
+// ------------------------------------------------------------------------------------------
+fn check_expull(ctx: &mut Ctx, nlists: usize, writes: &[(usize, Vec<u8>)], model: bool) {
+    let case = json!({"kind": "expull", "lists": nlists, "writes": writes.iter().map(|(i, b)| format!("{i}:{}", if b.is_empty() { "-".to_string() } else { hex(b) })).collect::<Vec<_>>()});
+    let total: usize = writes.iter().map(|w| w.1.len()).sum();
+    ctx.report.case(&format!("expull|{nlists}|{}|{}", writes.len(), total.min(1 << 20).next_power_of_two()), total > 0);
+    ctx.report.count("expull");
+    let r = catch_unwind(AssertUnwindSafe(|| tantivy::verif::c07_expull_run(nlists, writes)));
+    let (outs, len) = match r {
+        Ok(x) => x,
+        Err(p) => { ctx.report.violation("oracle", "C07:panic", format!("ExpUnrolledLinkedList ({nlists} lists, {} writes): {}", writes.len(), panic_msg(p)), case); return; }
+    };
+    let mut want = vec![Vec::<u8>::new(); nlists];
+    for (i, b) in writes {
+        want[*i].extend_from_slice(b);
+    }
+    if outs != want {
+        let i = (0..nlists).find(|i| outs[*i] != want[*i]).unwrap_or(0);
+        let j = outs[i].iter().zip(&want[i]).position(|(x, y)| x != y).unwrap_or(outs[i].len().min(want[i].len()));
+        ctx.report.violation("oracle", "C07:expull-roundtrip", format!("ExpUnrolledLinkedList #{i} of {nlists}: read_to_end returns {} bytes, {} were written; first difference at byte {j}", outs[i].len(), want[i].len()), case.clone());
+    }
+    if model {
+        let ws = if writes.is_empty() { "-".to_string() } else { writes.iter().map(|(i, b)| format!("{i}:{}", if b.is_empty() { "-".to_string() } else { hex(b) })).collect::<Vec<_>>().join(";") };
+        let m = ctx.model.ask(&format!("C07 expull {nlists} {ws}"));
+        let mut parts: Vec<String> = outs.iter().map(|o| if o.is_empty() { "-".to_string() } else { hex(o) }).collect();
+        parts.push(len.to_string());
+        let real = parts.join("|");
+        if m != real {
+            let sh = |s: &str| if s.len() > 120 { format!("{}…", &s[..120]) } else { s.to_string() };
+            ctx.report.violation("model", "C07:model-expull", format!("{nlists} lists, {} writes: real {} (arena len {len}) model {}", writes.len(), sh(&real), sh(&m)), case);
+        }
+    }
+}
+
+fn gen_expull_writes(rng: &mut Rng, nlists: usize, n: usize, big: usize) -> Vec<(usize, Vec<u8>)> {
+    (0..n).map(|_| {
+        let i = rng.usize_below(nlists);
+        let len = match rng.below(12) {
+            0 => 0,
+            1 => 7 + rng.usize_below(3),
+            2 => 15 + rng.usize_below(3),
+            3 => 20 + rng.usize_below(80),
+            4 if big > 0 => big / 2 + rng.usize_below(big),
+            _ => 1 + rng.usize_below(5),
+        };
+        (i, (0..len).map(|_| rng.below(256) as u8).collect())
+    }).collect()
+}
+
+// ------------------------------------------------------------------------------------------
+// block-level programs mixing advance and seek on one BlockSegmentPostings
+// ------------------------------------------------------------------------------------------
+/// `ops`: None = advance (generated only out of a full block), Some(t) = seek(t). The oracle tracks
+/// the block start `n` on the doc list: advance moves to n+128; seek steps over full blocks whose
+/// last doc is < t and then answers the first doc >= t from the block start on.
+fn check_block_ops(ctx: &mut Ctx, opt: Opt, l: &(Vec<u32>, Vec<u32>), ops: &[Option<u32>], model: bool) {
+    use crate::props::c07::real_postings_bytes;
+    let prog: Vec<String> = ops.iter().map(|o| match o { None => "A".to_string(), Some(t) => format!("S{t}") }).collect();
+    let case = json!({"kind": "block-ops", "opt": opt.name(), "docs": l.0, "tfs": l.1, "ops": prog});
+    ctx.report.case(&format!("block-ops|{}|{}|{}", opt.name(), l.0.len() / 128, prog.iter().map(|p| &p[..1]).collect::<String>()), !ops.is_empty());
+    ctx.report.count("block-ops");
+    let tfs: Vec<u32> = if opt == Opt::Basic { vec![1; l.0.len()] } else { l.1.clone() };
+    let mut n = 0usize;
+    let mut want = vec![];
+    for o in ops {
+        match o {
+            None => {
+                if l.0.len() - n.min(l.0.len()) < 128 { return; } // not a program of the precondition
+                n += 128;
+                want.push(l.0.get(n).copied().unwrap_or(TERMINATED));
+            }
+            Some(t) => {
+                while l.0.len() - n >= 128 && l.0[n + 127] < *t { n += 128; }
+                want.push(l.0[n..].iter().copied().find(|d| d >= t).unwrap_or(TERMINATED));
+            }
+        }
+    }
+    let r = catch_unwind(AssertUnwindSafe(|| -> Result<(Vec<u8>, Vec<u32>), String> {
+        let bytes = real_postings_bytes(opt, &l.0, &tfs);
+        let mut cur = tantivy::verif::c07_open_block_postings(l.0.len() as u32, bytes.clone(), opt.real(), opt.real()).map_err(|e| e.to_string())?;
+        let mut out = vec![];
+        for o in ops {
+            match o {
+                None => { cur.advance(); out.push(cur.doc(0)); }
+                Some(t) => { let idx = cur.seek(*t); out.push(cur.doc(idx)); }
+            }
+        }
+        Ok((bytes, out))
+    }));
+    let (bytes, out) = match r {
+        Ok(Ok(x)) => x,
+        Ok(Err(e)) => { ctx.report.violation("oracle", "C07:read-error", format!("block-ops: {e}"), case); return; }
+        Err(p) => { ctx.report.violation("oracle", "C07:panic", format!("block-ops ({} docs): {}", l.0.len(), panic_msg(p)), case); return; }
+    };
+    if out != want {
+        let i = out.iter().zip(&want).position(|(x, y)| x != y).unwrap_or(0);
+        ctx.report.violation("oracle", "C07:block-ops", format!("{}: block-level program on a {}-doc list: op #{i} ({}) shows {:?}, the doc list prescribes {:?}", opt.name(), l.0.len(), prog[i], out.get(i), want.get(i)), case.clone());
+    }
+    if model {
+        let m = ctx.model.ask(&format!("C07 lazyops {} {} {} {}", opt.name(), l.0.len(), hex(&bytes), if prog.is_empty() { "-".to_string() } else { prog.join(",") }));
+        let real = crate::model::nat_list(&out);
+        if m != real {
+            let sh = |s: &str| if s.len() > 120 { format!("{}…", &s[..120]) } else { s.to_string() };
+            ctx.report.violation("model", "C07:model-lazyops", format!("{}: block-level program on {} docs: real {} model {}", opt.name(), l.0.len(), sh(&real), sh(&m)), case);
+        }
+    }
+}
+
+fn gen_block_ops(rng: &mut Rng, docs: &[u32]) -> Vec<Option<u32>> {
+    let mut n = 0usize;
+    let mut ops = vec![];
+    let top = docs.last().copied().unwrap_or(10) + 3;
+    for _ in 0..(1 + rng.usize_below(7)) {
+        if docs.len() - n >= 128 && rng.below(3) == 0 {
+            ops.push(None);
+            n += 128;
+        } else {
+            let t = match rng.below(5) {
+                0 if n < docs.len() => docs[n + rng.usize_below(docs.len() - n)],
+                1 if docs.len() - n >= 128 => docs[n + 127] + rng.below(2) as u32,
+                2 => TERMINATED,
+                _ => rng.below(top as u64 + 1) as u32,
+            };
+            ops.push(Some(t));
+            while docs.len() - n >= 128 && docs[n + 127] < t { n += 128; }
+        }
+    }
+    ops
+}
+
+// ------------------------------------------------------------------------------------------
 pub fn obligations() -> Vec<String> {
     vec![
         "TermInfoStore bytes written through TermDictionaryBuilder = model `tis_write`; model `tis_get` of the real bytes = written TermInfo; TermDictionary::get = written TermInfo".into(),
         "serialize_vint_u32 bytes / read_u32_vint_no_advance = model (unrolled ladder with extracted thresholds); round trip on the real code".into(),
         "segments whose recorders see 2^(7k)-1, 2^(7k), 2^(7k)+1 as position+1, term frequency or doc-id gap read back exactly".into(),
+        "index sorted by a fast field (doc_id_map branch of Recorder::serialize): read-back = inversion in the new order = model `pipeline_remap`".into(),
+        "ExpUnrolledLinkedList: read_to_end of every list sharing a MemoryArena = the bytes written to it, = the Lean model (op expull, arena length included)".into(),
+        "block-level programs of BlockSegmentPostings::advance / seek show what the doc list prescribes (block start tracked on the list) and = the lazy cursor model (op lazyops)".into(),
+        "a program of BlockSegmentPostings::seek calls lands on the first doc >= target each time and = the lazy cursor model (op lazyseeks)".into(),
         "recycled block cursor (read_block_postings_from_terminfo, advance/drain/seek, reset_block_postings_from_terminfo) enumerates exactly the new term".into(),
     ]
 }
@@ -763,6 +1078,30 @@ pub fn replay(ctx: &mut Ctx, case: &J) -> bool {
             let has = ctx.model.ask("C07 recycle basic 0 - A0 0 -") != "bad-op";
             check_recycle_codec(ctx, opt, &(u("a_docs"), u("a_tfs")), &(u("b_docs"), u("b_tfs")), case["move"].as_str().unwrap_or("A0"), has);
         }
+        "expull" => {
+            let n = case["lists"].as_u64().unwrap_or(1) as usize;
+            let ws: Vec<(usize, Vec<u8>)> = case["writes"].as_array().map(|a| a.iter().filter_map(|x| {
+                let (i, h) = x.as_str()?.split_once(':')?;
+                let b = if h == "-" { vec![] } else { (0..h.len() / 2).filter_map(|k| u8::from_str_radix(&h[2 * k..2 * k + 2], 16).ok()).collect() };
+                Some((i.parse().ok()?, b))
+            }).collect()).unwrap_or_default();
+            let has = ctx.model.ask("C07 expull 1 -") != "bad-op";
+            check_expull(ctx, n.max(1), &ws, has);
+        }
+        "block-ops" => {
+            let u = |k: &str| -> Vec<u32> { case[k].as_array().map(|a| a.iter().filter_map(|x| x.as_u64()).map(|x| x as u32).collect()).unwrap_or_default() };
+            let opt = Opt::from_name(case["opt"].as_str().unwrap_or("")).unwrap_or(Opt::Basic);
+            let ops: Vec<Option<u32>> = case["ops"].as_array().map(|a| a.iter().filter_map(|x| { let w = x.as_str()?; if w == "A" { Some(None) } else { w[1..].parse().ok().map(Some) } }).collect()).unwrap_or_default();
+            let has = ctx.model.ask("C07 lazyops basic 0 - -") != "bad-op";
+            check_block_ops(ctx, opt, &(u("docs"), u("tfs")), &ops, has);
+        }
+        "lazy-seeks" => {
+            let u = |k: &str| -> Vec<u32> { case[k].as_array().map(|a| a.iter().filter_map(|x| x.as_u64()).map(|x| x as u32).collect()).unwrap_or_default() };
+            let opt = Opt::from_name(case["opt"].as_str().unwrap_or("")).unwrap_or(Opt::Basic);
+            let has = ctx.model.ask("C07 lazyseeks basic 0 - -") != "bad-op";
+            check_lazy_seeks(ctx, opt, &(u("docs"), u("tfs")), &u("targets"), has);
+        }
+        "sorted-index" => check_sorted_index(ctx, case["state"].as_str().and_then(|s| s.parse().ok()).unwrap_or(0)),
         "json-recycle" => check_json_recycle(ctx, case["ndocs"].as_u64().unwrap_or(300) as u32, Opt::from_name(case["opt"].as_str().unwrap_or("")).unwrap_or(Opt::Freqs)),
         "json-nontext-positions" => check_json_nontext_positions(ctx, case["ndocs"].as_u64().unwrap_or(3) as u32),
         "terminfo" => {
@@ -797,6 +1136,10 @@ pub fn run(ctx: &mut Ctx, model_has_vint32: bool) {
         let state = ctx.rng.fork().0;
         check_recycle(ctx, state);
     }
+    for _ in 0..ctx.budget(12, 240) {
+        let state = ctx.rng.fork().0;
+        check_sorted_index(ctx, state);
+    }
     let has_recycle = ctx.model.ask("C07 recycle basic 0 - A0 0 -") != "bad-op";
     if !has_recycle {
         ctx.report.violation("model", "C07:model-unavailable", "the Lean driver answers bad-op for recycle".into(), json!({"kind": "probe"}));
@@ -814,6 +1157,56 @@ pub fn run(ctx: &mut Ctx, model_has_vint32: bool) {
             _ => if da.is_empty() { "A1".to_string() } else { format!("S{}", da[rng2.usize_below(da.len())]) },
         };
         check_recycle_codec(ctx, opt, &(da, ta), &(db, tb), &mv, has_recycle);
+    }
+    let has_expull = ctx.model.ask("C07 expull 1 -") != "bad-op";
+    if !has_expull {
+        ctx.report.violation("model", "C07:model-unavailable", "the Lean driver answers bad-op for expull".into(), json!({"kind": "probe"}));
+    }
+    let mut rng4 = ctx.rng.fork();
+    for round in 0..ctx.budget(60, 240) {
+        let nlists = 1 + rng4.usize_below(4);
+        let n = match round % 6 { 0 => rng4.usize_below(4), 1 => 40 + rng4.usize_below(200), _ => 1 + rng4.usize_below(40) };
+        let big = if round % 10 == 3 && n <= 40 { 20_000 } else { 0 };
+        let ws = gen_expull_writes(&mut rng4, nlists, n, big);
+        check_expull(ctx, nlists, &ws, has_expull);
+    }
+    if ctx.thorough() {
+        // across the 1 MiB page of the arena
+        let ws: Vec<(usize, Vec<u8>)> = (0..5).map(|k| (k % 2, (0..230_000u32).map(|x| (x.wrapping_mul(2654435761).wrapping_add(k as u32) >> 13) as u8).collect())).collect();
+        check_expull(ctx, 2, &ws, has_expull);
+    }
+    let has_lazy = ctx.model.ask("C07 lazyseeks basic 0 - -") != "bad-op";
+    if !has_lazy {
+        ctx.report.violation("model", "C07:model-unavailable", "the Lean driver answers bad-op for lazyseeks".into(), json!({"kind": "probe"}));
+    }
+    let mut rng3 = ctx.rng.fork();
+    for _ in 0..ctx.budget(120, 600) {
+        let opt = *rng3.pick(&[Opt::Basic, Opt::Freqs, Opt::Positions]);
+        let (d, t, _) = crate::props::c07::gen_posting_list(&mut rng3);
+        let n = 1 + rng3.usize_below(6);
+        let top = d.last().copied().unwrap_or(10) + 3;
+        let mut targets: Vec<u32> = (0..n).map(|_| match rng3.below(6) {
+            0 if !d.is_empty() => d[rng3.usize_below(d.len())],
+            1 if !d.is_empty() => d[rng3.usize_below(d.len())] + 1,
+            2 if d.len() >= 128 => d[(128 * (1 + rng3.usize_below(d.len() / 128)) - 1).min(d.len() - 1)] + rng3.below(2) as u32,
+            3 => tantivy::TERMINATED,
+            _ => rng3.below(top as u64 + 1) as u32,
+        }).collect();
+        if rng3.below(5) != 0 {
+            targets.sort();
+        }
+        check_lazy_seeks(ctx, opt, &(d, t), &targets, has_lazy);
+    }
+    let has_ops = ctx.model.ask("C07 lazyops basic 0 - -") != "bad-op";
+    if !has_ops {
+        ctx.report.violation("model", "C07:model-unavailable", "the Lean driver answers bad-op for lazyops".into(), json!({"kind": "probe"}));
+    }
+    let mut rng5 = ctx.rng.fork();
+    for _ in 0..ctx.budget(120, 600) {
+        let opt = *rng5.pick(&[Opt::Basic, Opt::Freqs, Opt::Positions]);
+        let (d, t, _) = crate::props::c07::gen_posting_list(&mut rng5);
+        let ops = gen_block_ops(&mut rng5, &d);
+        check_block_ops(ctx, opt, &(d, t), &ops, has_ops);
     }
     for (ndocs, opt) in [(50u32, Opt::Freqs), (400, Opt::Basic), (400, Opt::Freqs), (400, Opt::Positions)] {
         check_json_recycle(ctx, ndocs, opt);
